@@ -1550,7 +1550,7 @@ namespace awkward {
 
   const ContentPtr
   RecordArray::field(int64_t fieldindex) const {
-    if (fieldindex >= numfields()) {
+    if (fieldindex < 0  ||  fieldindex >= numfields()) {
       throw std::invalid_argument(
         std::string("fieldindex ") + std::to_string(fieldindex)
         + std::string(" for record with only " + std::to_string(numfields()))
